@@ -41,7 +41,7 @@ ASSUMPTIONS = [
     "OsStr = bytes (Unix); harness built with clap features unicode (eq_ignore_case = unicase::eq) and error-context",
     "C04_typed_store assumes the store invariant wf_store (FlatMap keys distinct; an entry with a declared type holds "
     "only values of that type); round 2 PROVES it of the root level of every successful parse of a valid plain "
-    "definition (C04_parse_store_wf) -- for sub-levels and the merged result it remains an assumption",
+    "definition and of every successful level of the recursion (C04_parse_store_wf, C04_level_store_wf) -- for the merged result and for levels that failed under ignore_errors it remains an assumption",
     "the matcher model stores raw values only; 'the typed value next to a raw value' is typed_value (TypedView.v), the "
     "C04 model of value_parser.parse_ref applied to it (push_arg_values pushes both with one add_val_to call)",
     "whole-parse corollaries exist for the value parsers a definition of the parser model can name (String, OsString, "
@@ -858,7 +858,7 @@ LEVEL_TEXT = ("Machine-checked theorems (Coq 8.16, closed under the global conte
               "definitions agree on the parser of each global id (refutation witness otherwise); a rendered invocation "
               "(C02's un-parser class) carrying a value outside the language is never accepted, and every value-error of "
               "parse_top is the refusal of an argument's parser of a value of the line or the definition, naming the "
-              "argument; the ArgMatches of a successful parse satisfies the typed-store invariant, so wrong-type and "
+              "argument; the ArgMatches of every successful level of a parse satisfies the typed-store invariant, so wrong-type and "
               "unknown-id accesses on a parse result fail and leave every stored entry untouched.  The models are tied to "
               "clap_builder by running the extracted model and the real crate (direct parse_ref, full Command path, and the "
               "full parser on random command trees with typed arguments) on the same generated cases on every check, with "
@@ -871,5 +871,5 @@ LEVEL_NOTE = ("Trusted: Coq kernel, extraction, OCaml driver, Rust harness, gene
               "redefines the id of an ancestor's global argument with another value parser makes the ancestor report a value "
               "its own parser refuses (C04_merged_typed_refuted, model = implementation, observation).  Differential only: "
               "whole-parse statements for boolish/falsey/non-empty/possible/enum parsers and integer widths other than "
-              "i64/u8 (not expressible in the parser model's definitions), the typed store of sub-levels and of the merged "
-              "result, rejection completeness outside the un-parser class, unicase outside ASCII.")
+              "i64/u8 (not expressible in the parser model's definitions), the typed store of the merged result and of levels "
+              "that failed under ignore_errors, rejection completeness outside the un-parser class, unicase outside ASCII.")
